@@ -154,6 +154,10 @@ def run(chk):
     chk.undecide('panic-freedom of the enum_unwrap!/unwrap sites of the parser on arbitrary token sequences needs invariants of the parse stack: not judged')
     crash_path_counts(chk, fx)
     stack_floor(chk, fx)
+    # the lexer runs inside Parser::parse: its value-dependent unwrap
+    from sa.props import c08
+    lexfns = {T.norm(f['path']): f for f in fx.file(c08.LEX)['fns'] if (f.get('self_ty') or '').split('::')[-1] == 'Lexer'}
+    c08.from_u32_rule(chk, lexfns, 'C09-lexchar')
     return ('Strongly connected components of the resolved call graph of erg_parser (calls exported from typed HIR and MIR) reachable from Parser::parse, searched for depth guards; '
             'who-may-call rule for the enlarged-stack thread. Termination and panic-freedom on arbitrary token sequences are not decided.'), {}
 
